@@ -31,4 +31,23 @@ def Pwc.integralCode (f : Pwc) (a b : Q) : Option Q :=
 def Pwl.integralCode (f : Pwl) (a b : Q) : Option Q :=
   if f.x.headD 0 ≤ a ∧ a < lastD f.x 0 ∧ b ≤ lastD f.x 0 then f.integral a b else none
 
+/-- `avrg([(a₁,b₁), …])` with the code-faithful single-interval integral -/
+def Pwc.avrgListCode (f : Pwc) (ivs : List (Q × Q)) : Option Q :=
+  let rec go (ivs : List (Q × Q)) (acc len : Q) : Option Q :=
+    match ivs with
+    | [] => some (acc / len)
+    | (a, b) :: r => match f.integralCode a b with
+      | none => none
+      | some v => go r (acc + v) (len + (b - a))
+  go ivs 0 0
+
+def Pwl.avrgListCode (f : Pwl) (ivs : List (Q × Q)) : Option Q :=
+  let rec go (ivs : List (Q × Q)) (acc len : Q) : Option Q :=
+    match ivs with
+    | [] => some (acc / len)
+    | (a, b) :: r => match f.integralCode a b with
+      | none => none
+      | some v => go r (acc + v) (len + (b - a))
+  go ivs 0 0
+
 end PySpike
